@@ -10,6 +10,8 @@ def one(v):
 
 class Conc(QHooks):
     """everything tracked, every counter exact"""
+    inline_depth = 12       # a helper more on the way down must not turn a library routine into an unknown call
+
     def __init__(self, entry):
         self.entry = entry
         self.ends = []
@@ -21,7 +23,7 @@ class Conc(QHooks):
         return True
 
     def inline(self, fn, depth):
-        return bool(fn.blocks) and not fn.sys and depth < 6      # library code below the entry is part of it
+        return bool(fn.blocks) and not fn.sys and depth < 12     # library code below the entry is part of it
 
     def prim___errno_location(self, E, x, args):
         return [Outcome(ret=fs(('&', '$errno')))]
@@ -285,7 +287,7 @@ class SAConc:
         if isinstance(p, tuple) and p[0] == 'str':
             return bytes((ord(c) & 255) for c in p[1])
         out = []
-        for k in range(600):
+        for k in range(4200):
             q = ptr_add(p, k) if isinstance(p, tuple) else None
             b = _cell(E, q[1]) if q is not None else None
             if not isinstance(b, int):
@@ -424,6 +426,42 @@ class SAConc:
         i = (s_ + b'\0').find(bytes([c & 255]))
         return [Outcome(ret=fs(ptr_add(p, i)) if i >= 0 else fs(0))]
 
+    def prim_memchr(self, E, x, args):
+        from qv.esp import ptr_add
+        p, c, n = _one(args[0]), _one(args[1]), _one(args[2])
+        m = self.mem(E, p, n) if isinstance(n, int) and 0 <= n <= 4096 else None
+        if m is None or not isinstance(c, int) or not (isinstance(p, tuple) and p[0] in ('&', 'str')):
+            return [Outcome(ret=TOP)]
+        i = m.find(bytes([c & 255]))
+        if i < 0:
+            return [Outcome(ret=fs(0))]
+        q = ptr_add(p, i) or (p if i == 0 else None)
+        return [Outcome(ret=fs(q) if q is not None else TOP)]
+
+    def prim_memrchr(self, E, x, args):
+        from qv.esp import ptr_add
+        p, c, n = _one(args[0]), _one(args[1]), _one(args[2])
+        m = self.mem(E, p, n) if isinstance(n, int) and 0 <= n <= 4096 else None
+        if m is None or not isinstance(c, int) or not (isinstance(p, tuple) and p[0] == '&'):
+            return [Outcome(ret=TOP)]
+        i = m.rfind(bytes([c & 255]))
+        if i < 0:
+            return [Outcome(ret=fs(0))]
+        q = ptr_add(p, i) or (p if i == 0 else None)
+        return [Outcome(ret=fs(q) if q is not None else TOP)]
+
+    def prim_strrchr(self, E, x, args):
+        from qv.esp import ptr_add
+        p, c = _one(args[0]), _one(args[1])
+        s_ = self.cstring(E, p)
+        if s_ is None or not isinstance(c, int) or not (isinstance(p, tuple) and p[0] == '&'):
+            return [Outcome(ret=TOP)]
+        i = (s_ + b'\0').rfind(bytes([c & 255]))
+        if i < 0:
+            return [Outcome(ret=fs(0))]
+        q = ptr_add(p, i) or (p if i == 0 else None)
+        return [Outcome(ret=fs(q) if q is not None else TOP)]
+
     def _copy(self, E, dst, src, n):
         from qv.esp import ptr_add
         data = self.mem(E, src, n) if isinstance(n, int) and 0 <= n <= 4096 else None
@@ -462,6 +500,32 @@ class SAConc:
         a = self.mem(E, _one(args[0]), n) if isinstance(n, int) else None
         b = self.mem(E, _one(args[2]), n) if isinstance(n, int) else None
         return [Outcome(ret=fs(int(a == b)) if a is not None and b is not None else TOP)]
+
+
+# the everything-concrete base class evaluates the C library's byte routines on concrete bytes too (a scan or a copy may be
+# spelt with memchr/memmove/strrchr instead of the package's own byte_* routines, which are explored as code)
+for _n in ('mem', 'cstring', 'prim_memchr', 'prim_memrchr', 'prim_strrchr', 'prim_strchr', 'prim_memcmp', 'prim_strcmp',
+           'prim_strncmp', 'prim_memcpy', 'prim_memmove', '_copy'):
+    setattr(Conc, _n, getattr(SAConc, _n))
+Conc.prim_strlen = SAConc.prim_str_len
+
+
+def _conc_memset(self, E, x, args):
+    from qv.esp import ptr_add
+    p, c, n = _one(args[0]), _one(args[1]), _one(args[2])
+    if not (isinstance(p, tuple) and p[0] == '&' and isinstance(c, int) and isinstance(n, int) and 0 <= n <= 4096):
+        return None
+    sets = {}
+    for k in range(n):
+        q = ptr_add(p, k) or (p if k == 0 else None)
+        if q is None:
+            return None
+        sets[q[1]] = fs(((c + 128) & 255) - 128)
+    return [Outcome(ret=args[0], sets=sets)]
+
+
+Conc.prim_memset = _conc_memset
+SAConc.prim_memset = _conc_memset
 
 
 def conc_string_cells(prefix, data, terminate=True):
